@@ -698,7 +698,7 @@ func (n *ExtendsNode) Render(w io.Writer, ctx *RenderContext) error {
 	resolvedName := templateName
 	if strings.HasPrefix(templateName, "./") || strings.HasPrefix(templateName, "../") {
 		// Get the directory of the current template
-		currentTemplate := ctx.engine.currentTemplate
+		currentTemplate := ctx.rootTemplate
 		if currentTemplate != "" {
 			// Extract the directory part of the current template
 			currentDir := filepath.Dir(currentTemplate)
@@ -729,6 +729,7 @@ func (n *ExtendsNode) Render(w io.Writer, ctx *RenderContext) error {
 	parentCtx := NewRenderContext(ctx.env, ctx.context, ctx.engine)
 	parentCtx.extending = true // Flag that the parent is being extended
 	parentCtx.sandboxed = ctx.sandboxed
+	parentCtx.rootTemplate = ctx.rootTemplate
 
 	// Pass along the parent template as lastLoadedTemplate for relative path resolution
 	parentCtx.lastLoadedTemplate = parentTemplate
@@ -809,7 +810,7 @@ func (n *IncludeNode) Render(w io.Writer, ctx *RenderContext) error {
 	resolvedName := templateName
 	if strings.HasPrefix(templateName, "./") || strings.HasPrefix(templateName, "../") {
 		// Get the directory of the current template
-		currentTemplate := ctx.engine.currentTemplate
+		currentTemplate := ctx.rootTemplate
 		if currentTemplate != "" {
 			// Extract the directory part of the current template
 			currentDir := filepath.Dir(currentTemplate)
@@ -879,6 +880,7 @@ func (n *IncludeNode) Render(w io.Writer, ctx *RenderContext) error {
 
 		// A sandboxed context stays sandboxed in everything it includes
 		includeCtx.sandboxed = ctx.sandboxed
+		includeCtx.rootTemplate = ctx.rootTemplate
 
 		// If sandboxed, enable sandbox mode
 		if n.sandboxed {
@@ -1149,6 +1151,7 @@ func (n *MacroNode) CallMacro(w io.Writer, ctx *RenderContext, args ...interface
 	macroCtx := NewRenderContext(ctx.env, nil, ctx.engine)
 	macroCtx.parent = ctx
 	macroCtx.sandboxed = ctx.sandboxed
+	macroCtx.rootTemplate = ctx.rootTemplate
 
 	// Ensure context is released even in error paths
 	defer macroCtx.Release()
@@ -1231,7 +1234,7 @@ func (n *ImportNode) Render(w io.Writer, ctx *RenderContext) error {
 	resolvedName := templateName
 	if strings.HasPrefix(templateName, "./") || strings.HasPrefix(templateName, "../") {
 		// Get the directory of the current template
-		currentTemplate := ctx.engine.currentTemplate
+		currentTemplate := ctx.rootTemplate
 		if currentTemplate != "" {
 			// Extract the directory part of the current template
 			currentDir := filepath.Dir(currentTemplate)
@@ -1258,6 +1261,7 @@ func (n *ImportNode) Render(w io.Writer, ctx *RenderContext) error {
 	// Create a new context for the imported template
 	importCtx := NewRenderContext(ctx.env, nil, ctx.engine)
 	importCtx.sandboxed = ctx.sandboxed
+	importCtx.rootTemplate = ctx.rootTemplate
 	// Set the template as the lastLoadedTemplate for relative path resolutionn	importCtx.lastLoadedTemplate = template
 
 	// Ensure context is released even in error paths
@@ -1323,7 +1327,7 @@ func (n *FromImportNode) Render(w io.Writer, ctx *RenderContext) error {
 	resolvedName := templateName
 	if strings.HasPrefix(templateName, "./") || strings.HasPrefix(templateName, "../") {
 		// Get the directory of the current template
-		currentTemplate := ctx.engine.currentTemplate
+		currentTemplate := ctx.rootTemplate
 		if currentTemplate != "" {
 			// Extract the directory part of the current template
 			currentDir := filepath.Dir(currentTemplate)
@@ -1350,6 +1354,7 @@ func (n *FromImportNode) Render(w io.Writer, ctx *RenderContext) error {
 	// Create a new context for the imported template
 	importCtx := NewRenderContext(ctx.env, nil, ctx.engine)
 	importCtx.sandboxed = ctx.sandboxed
+	importCtx.rootTemplate = ctx.rootTemplate
 	// Set the template as the lastLoadedTemplate for relative path resolutionn	importCtx.lastLoadedTemplate = template
 
 	// Ensure context is released even in error paths
